@@ -14,7 +14,7 @@ EXTENDS IntMathOps, TLC, Json
 
 CONSTANTS MaxPat, RotMax, ZStride
 
-W4 == INSTANCE WideIM WITH WB <- 4
+W4 == INSTANCE WideIM WITH WB <- 4, LB <- 2
 
 VARIABLES mode, a, b
 vars == <<mode, a, b>>
@@ -72,6 +72,7 @@ UnaryLaws(p) ==
                 /\ W4!ZToInt(W4!SatCastZ(W4!ZOfInt(v), w, t)) = c
                 /\ W4!ZFits(W4!ZOfInt(v), w, t) = IFits(v, w, t)
           /\ W!ZToInt(W!ZMin(w, s)) = IMin(w, s) /\ W!ZToInt(W!ZMax(w, s)) = IMax(w, s)
+          /\ W4!ZToInt(W4!ZMin(16, s)) = IMin(16, s) /\ W4!ZToInt(W4!ZMax(16, s)) = IMax(16, s)
 
 \* ---- laws of rotation (pattern x count) -----------------------------------------------------------------
 RotLaws(p, n) ==
@@ -80,6 +81,7 @@ RotLaws(p, n) ==
     /\ Rotl(x, n) = RotlStd(x, n) /\ Rotr(x, n) = RotrStd(x, n)
     /\ Rotl(x, n) = Rotl(x, n + 8) /\ Rotl(x, 0 - n) = Rotr(x, n)
     /\ Popcount(Rotl(x, n)) = Popcount(x)
+    /\ (n >= 0 => W!NPow2(n) = W!NPow2Def(n) /\ W4!NPow2(n) = W4!NPow2Def(n))
     /\ (n \in 0..7 => NatOfBits(Rotl(x, n)) = ((p * 2^n) % 256) + ((p * 2^n) \div 256))
 
 \* ---- laws of the binary functions (every pair, both signednesses) --------------------------------------
@@ -163,10 +165,31 @@ MixedLaws(pa, pb) ==
           /\ Byteswap(x \o Byteswap(x)) = x \o Byteswap(x)
           /\ W!NToInt(W!NOfBits(x)) = pa + 256 * pb /\ W4!NToInt(W4!NOfBits(x)) = pa + 256 * pb
 
+\* a 16-bit value written into a 32/64-bit two's complement type (LimbsOfInt) denotes the same integer, and
+\* the shortcuts IFitsW / IClampW agree with the limb definitions
+EmbedLaws(pa, pb) ==
+    LET v16 == pa + 256 * pb
+        l2 == <<v16, pb + 256 * pa>>
+        l4 == <<pb, pa * 256, v16, pb + 256 * pa>>
+    IN
+    \* reading a word from its 16-bit limbs (Horner) = reading it bit by bit
+    /\ \A s \in {0, 1} : W!ZOfLimbs16(l2, 32, s) = W!ZOfBits(BitsOfLimbs(l2, 32), s)
+    /\ W4!ZOfLimbs16(l2, 32, 1) = W4!ZOfBits(BitsOfLimbs(l2, 32), 1)
+    /\ (pa \in Edge8 \/ pb \in Edge8 =>
+            \A s \in {0, 1} : W!ZOfLimbs16(l4, 64, s) = W!ZOfBits(BitsOfLimbs(l4, 64), s))
+    /\ \A s \in {0, 1} : \A ww \in {32, 64} :
+          LET v == ValOf(v16, 16, s) z == W!ZOfInt(v) IN
+          /\ LimbsOK(LimbsOfInt(v, ww), ww)
+          /\ W!ZOfLimbs16(LimbsOfInt(v, ww), ww, 1) = z
+          /\ (v >= 0 => W!ZOfLimbs16(LimbsOfInt(v, ww), ww, 0) = z)
+          /\ IFitsW(v, ww, 0) = W!ZFits(z, ww, 0) /\ IFitsW(v, ww, 1) = W!ZFits(z, ww, 1)
+          /\ W!ZOfInt(IClampW(v, ww, 0)) = W!SatCastZ(z, ww, 0)
+          /\ W!ZOfInt(IClampW(v, ww, 1)) = W!SatCastZ(z, ww, 1)
+
 Laws == IF b = Unset THEN (mode = "pair" => UnaryLaws(a))
         ELSE IF mode = "rot" THEN RotLaws(a, b)
         ELSE /\ PairLawsS(a, b, 0) /\ PairLawsS(a, b, 1) /\ MixedLaws(a, b)
-             /\ (ZPair(a, b) => PairLawsZ(a, b, 0) /\ PairLawsZ(a, b, 1))
+             /\ (ZPair(a, b) => PairLawsZ(a, b, 0) /\ PairLawsZ(a, b, 1) /\ EmbedLaws(a, b))
 
 \* ---- GEN: one JSON line per input --------------------------------------------------------------------
 EmitInv == IF b = Unset THEN (mode = "pair" => PrintT(<<"GEN", ToJson([m |-> "un", a |-> a])>>))
